@@ -1068,7 +1068,7 @@ func TestVerif(t *testing.T) {
 	env := vlib.GetEnv()
 	res := vlib.NewResult("C10", "scenario scripts of environment actions (7 generator modes: random mix, fill-close-drain, rendez-vous, context expiry with retries, "+
 		"close races, calls after Close / pre-expired contexts, receiver walks away; 1-3 senders, buffer 0/1/2/5) plus the corpus, each repeated so that both outcomes "+
-		"of select races show, followed by two real-threads stress phases in child processes (mixed TrySend / Send / drain rounds whose stuck call trips the runtime's deadlock detector; the sender's Close racing up to 3000 parked Sends and a reading receiver); a case is non-trivial if its trace has >= 4 executed actions, delivers >= 1 value and contains a Close or a context expiry; "+
+		"of select races show, followed by two real-threads stress phases in child processes (mixed TrySend / Send / drain rounds whose stuck call trips the runtime's deadlock detector; the sender's Close racing up to 3000 parked Sends and a reading receiver) and a real-threads outcome phase (8 small pre/par/post races per seed, e.g. TrySend racing Close(err) with a Next started before, whose observed result tuples must belong to the outcome set the Lean LTS computes for the scenario); a case is non-trivial if its trace has >= 4 executed actions, delivers >= 1 value and contains a Close or a context expiry; "+
 		"distinct = different script. thorough adds every script of <= 5 (1 sender, buffer 0 and 1) / <= 4 (2 senders, buffer 0 and 1) actions")
 	defer func() { res.Write(env.Out) }()
 	m, err := vlib.StartModel(env.Driver, "pipe")
@@ -1086,6 +1086,11 @@ func TestVerif(t *testing.T) {
 		var cs Case
 		if err := vlib.ReplayCase(env.Replay, &cs); err != nil {
 			t.Fatalf("cannot read replay: %v", err)
+		}
+		if len(cs.Scenario) == 1 && strings.HasPrefix(cs.Scenario[0], "stress outcome ") {
+			cfg, _ := parseStressCfg(cs.Scenario[0])
+			replayOutcome(env, cfg)
+			return
 		}
 		if len(cs.Scenario) == 1 && strings.HasPrefix(cs.Scenario[0], "stress ") {
 			replayStress(cs)
